@@ -157,7 +157,7 @@ func TestC06(t *testing.T) {
 
 	for ki, keyRaw := range keys {
 		for _, withDialect := range []bool{false, true} {
-			env := &c06env{rep: rep, keyRaw: keyRaw, key: frame.NewV2Key(keyRaw)}
+			env := &c06env{rep: rep, keyRaw: keyRaw, key: mkKey(keyRaw)}
 			if withDialect {
 				env.genv = genv
 			}
@@ -343,7 +343,7 @@ func TestC06(t *testing.T) {
 	}
 	nW := vh.Pick(300, 20000)
 	for ki, keyRaw := range keys[:3] {
-		key := frame.NewV2Key(keyRaw)
+		key := mkKey(keyRaw)
 		link := []int{0, 7, 255}[ki]
 		// streamwriter
 		{
@@ -435,10 +435,55 @@ func TestC06(t *testing.T) {
 					rep.Inconclusive(fmt.Sprintf("node writer emitted %d of %d frames before the no-progress criterion fired", got, nN))
 				}
 			}
+			// frames the application derives from one another (struct copies of a frame it has fixed, edited and fixed again)
+			// while the earlier ones are still waiting in the channels' queues: every one leaves with a signature that verifies
+			nBefore := tr[0].NWrites()
+			for _, x := range tr {
+				x.BlockWrites()
+			}
+			nDerived := 0
+			for i := 0; i < 12; i++ {
+				mi := glist[r.Intn(len(glist))]
+				s, _ := validFrame(r, mi, 2, 0, false, nil)
+				v, _ := mi.Layout.Decode(s.Payload, true)
+				f1 := &frame.V2Frame{IncompatibilityFlag: frame.V2FlagSigned, SequenceNumber: byte(i), SystemID: 9, ComponentID: 9, Message: v.Interface().(message.Message)}
+				if err := node.FixFrame(f1); err != nil {
+					continue
+				}
+				_ = node.WriteFrameAll(f1)
+				f2 := *f1 // shares whatever f1 points to
+				f2.SystemID = 10
+				if err := node.FixFrame(&f2); err != nil {
+					continue
+				}
+				_ = node.WriteFrameAll(&f2)
+				nDerived += 2
+			}
+			for _, x := range tr {
+				x.UnblockWrites()
+			}
+			for _, x := range tr {
+				x.WaitWrites(nBefore+nDerived, 2*time.Second)
+			}
+			rep.Count("frames_derived_by_struct_copy_and_fixed", nDerived)
 			t1 := ticksNow()
 			node.Close()
 			for _, x := range tr {
-				out := x.Output()
+				// the frames fixed by the application carry the link id and timestamp it gave them: only the signature is judged
+				ws := x.Writes()
+				var out []byte
+				for wi, w := range ws {
+					if wi < nBefore {
+						out = append(out, w.Data...)
+						continue
+					}
+					f, n, st := ref.ParseAt(w.Data, 0)
+					rep.Eval(1)
+					if st != ref.ParseOK || n != len(w.Data) || !f.Signed || f.Signature != ref.SignatureOfWire(keyRaw, w.Data) {
+						rep.Violation("what=writer:node:sig", "a frame fixed with FixFrame on a node with an outgoing key left the node with a signature that does not verify (frames derived from one another by struct copy, earlier ones still queued)", vh.Hex(w.Data))
+						break
+					}
+				}
 				if len(out) == 0 {
 					continue
 				}
@@ -465,13 +510,13 @@ func TestC06(t *testing.T) {
 			Dialect:          &dialect.Dialect{Version: 3, Messages: mlist},
 			OutVersion:       outVer,
 			OutSystemID:      12,
-			InKey:            frame.NewV2Key(keyRaw),
+			InKey:            mkKey(keyRaw),
 			HeartbeatDisable: true,
 		}
 		if err := node.Initialize(); err != nil {
 			t.Fatal(err)
 		}
-		env := &c06env{rep: rep, keyRaw: keyRaw, key: frame.NewV2Key(keyRaw), genv: genv}
+		env := &c06env{rep: rep, keyRaw: keyRaw, key: mkKey(keyRaw), genv: genv}
 		var stream []byte
 		wantAuth := 0
 		nIn := vh.Pick(400, 6000)
